@@ -150,6 +150,8 @@ def run_model(cases, timeout=1800):
 # implementation side: sharded worker processes, each long-lived (numba compiles per process)
 # ----------------------------------------------------------------------------------------------------------------
 
+SKIPPED = {"err": "skipped-after-hangs"}      # not evaluated: the batch was cut short after VERIF_HANG_LIMIT hangs
+
 MODE_ENV = {
     "jit": {},
     "nojit": {"USE_NUMBA": "false"},
@@ -157,13 +159,35 @@ MODE_ENV = {
 }
 
 
-def run_impl(harness, cases, mode="jit", nproc=None, stall_s=90, fn="impl"):
+def run_impl(harness, cases, mode="jit", nproc=None, stall_s=90, fn="impl", _retry=True):
     """Run `harness.<fn>(case)` for every case in worker subprocesses started in `mode`.
     A worker that makes no progress for `stall_s` seconds is killed and its current case reported as {'err':'hang'}.
+    A small number (≤ 4) of reported hangs is only believed after the cases hung a second time in a fresh worker (on a
+    loaded machine the first case of a worker can exceed the limit while numba compiles).
     Returns the list of results in case order."""
     n = len(cases)
     if n == 0:
         return []
+    if _retry:
+        res = run_impl(harness, cases, mode, nproc, stall_s, fn, _retry=False)
+        hung = [i for i, r in enumerate(res) if isinstance(r, dict) and r.get("err") in ("hang",) or
+                isinstance(r, dict) and str(r.get("err", "")).startswith("other:worker-exit")]
+        if hung and len(hung) <= 4:
+            # few enough to be an artefact of load (many hangs are a property of the code): once more, each in a fresh worker
+            log(f"re-running {len(hung)} case(s) reported as hang/worker-exit, each in a fresh worker")
+            again = [None] * len(hung)
+
+            def one(k):
+                again[k] = run_impl(harness, [cases[hung[k]]], mode, 1, stall_s, fn, _retry=False)[0]
+            import threading as _th
+            ts = [_th.Thread(target=one, args=(k,), daemon=True) for k in range(len(hung))]
+            for t in ts:
+                t.start()
+            for t in ts:
+                t.join()
+            for i, r in zip(hung, again):
+                res[i] = r
+        return res
     nproc = max(1, min(nproc or int(os.environ.get("VERIF_NPROC", "0") or 0) or os.cpu_count() or 4, (n + 7) // 8))
     shards = [list(range(k, n, nproc)) for k in range(nproc)]
     results = [None] * n
@@ -181,10 +205,20 @@ def run_impl(harness, cases, mode="jit", nproc=None, stall_s=90, fn="impl"):
         return p, payload
 
     import threading
+    hang_limit = int(os.environ.get("VERIF_HANG_LIMIT", "3") or 3)
+    hangs = [0]
+    abort = threading.Event()
+
+    def note_hang():
+        # a hang is already a reportable result; many of them are a property of the code under test and every one costs a
+        # full stall limit, so after `hang_limit` of them the rest of this batch is not run (SKIPPED results)
+        hangs[0] += 1
+        if hangs[0] >= hang_limit and n > hang_limit:
+            abort.set()
 
     def drive(idx_list):
         pos = 0
-        while pos < len(idx_list):
+        while pos < len(idx_list) and not abort.is_set():
             todo = idx_list[pos:]
             p, payload = start(todo)
             state = {"last": time.time(), "got": 0}
@@ -205,6 +239,8 @@ def run_impl(harness, cases, mode="jit", nproc=None, stall_s=90, fn="impl"):
                         results[todo[state["got"]]] = json.loads(line)
                     except Exception:
                         results[todo[state["got"]]] = {"err": "other:bad-worker-line"}
+                    if isinstance(results[todo[state["got"]]], dict) and results[todo[state["got"]]].get("err") == "hang":
+                        note_hang()
                     state["got"] += 1
                     state["last"] = time.time()
 
@@ -216,7 +252,7 @@ def run_impl(harness, cases, mode="jit", nproc=None, stall_s=90, fn="impl"):
             while tr.is_alive():
                 tr.join(timeout=1.0)
                 limit = stall_s * (3 if first and state["got"] == 0 else 1)
-                if tr.is_alive() and time.time() - state["last"] > limit:
+                if tr.is_alive() and (abort.is_set() or time.time() - state["last"] > limit):
                     p.kill()
                     tr.join(timeout=5)
                     break
@@ -225,10 +261,12 @@ def run_impl(harness, cases, mode="jit", nproc=None, stall_s=90, fn="impl"):
             p.wait()
             got = state["got"]
             pos += got
-            if pos < len(idx_list):
+            if pos < len(idx_list) and not abort.is_set():
                 # the worker died or stalled on case idx_list[pos]
                 rc = p.returncode
                 results[idx_list[pos]] = {"err": "hang"} if rc in (-9, None) else {"err": f"other:worker-exit-{rc}"}
+                if rc in (-9, None):
+                    note_hang()
                 pos += 1
 
     threads = [threading.Thread(target=drive, args=(s,), daemon=True) for s in shards if s]
@@ -236,6 +274,10 @@ def run_impl(harness, cases, mode="jit", nproc=None, stall_s=90, fn="impl"):
         t.start()
     for t in threads:
         t.join()
+    if abort.is_set():
+        skipped = sum(1 for r in results if r is None)
+        log(f"{hangs[0]} hangs in mode {mode}: the remaining {skipped} case(s) of this batch are skipped")
+        results = [SKIPPED if r is None else r for r in results]
     return results
 
 
